@@ -885,6 +885,9 @@ pub fn run_prop(p: &Prop, cfg: &RunCfg, only_sub: Option<&str>) -> i32 {
     let t0 = std::time::Instant::now();
     install_quiet_panic_hook();
     let _ = CURRENT_PROP.set(p.id.to_string());
+    if p.id == "C10" {
+        crate::regexo::allow_quotes();
+    }
     start_watchdog();
     // self tests first: a failure means the harness is wrong, never the library
     let mut selftests = 0;
